@@ -82,6 +82,9 @@ func c16Batch(r *vc.Run, bi int, interp bool, n int) {
 	for _, k := range []string{"at", "xa", "bare"} {
 		db := w.NewDB(k)
 		db.CreateUndoLog()
+		// a server that detaches a prepared XA branch from its session (8.0.29+): the connection is the application's
+		// again as soon as phase one is over
+		db.E.Version = "8.0.32"
 		env.dbs[k] = db
 		driver := map[string]string{"at": "seata-at-mysql", "xa": "seata-xa-mysql", "bare": "mysql"}[k]
 		specs = append(specs, world.DBSpec{Name: k, Driver: driver, DSN: db.DSN("app", extra), MaxOpen: 4, Class: "prog"})
@@ -155,11 +158,26 @@ func c16Mixed(r *vc.Run, env *c16Env, rnd *vc.Rand, name string) {
 	p := &c16Prog{Name: name, Mode: "mixed", Tables: []*atTable{t}, Feat: map[string]string{"mode": "mixed"}, KillAt: -1}
 	seq := 0
 	o := atStmtOpts{params: true, rowsClass: "1"}
-	inner := []gtxStep{{Op: "begin", DB: "X"}, {Op: "exec", DB: "X", SQL: atGenUpdate(rnd, t, o).SQL}}
 	u := atGenUpdate(rnd, t, o)
-	inner[1].SQL, inner[1].Args = u.SQL, u.Args
+	var inner []gtxStep
 	end := []string{"commit", "rollback"}[rnd.Intn(2)]
-	inner = append(inner, gtxStep{Op: end})
+	switch rnd.Intn(3) {
+	case 0:
+		// a statement-scoped (autocommit) statement that fails: a duplicate of an existing key
+		row := t.Rows[rnd.Intn(len(t.Rows))]
+		var cols, vals []string
+		for ci, c := range t.Def.Cols {
+			cols = append(cols, c.Name)
+			vals = append(vals, sqlLit(row[ci]))
+		}
+		inner = []gtxStep{{Op: "exec", DB: "X", SQL: fmt.Sprintf("insert into %s (%s) values (%s)", t.Name, strings.Join(cols, ", "), strings.Join(vals, ", "))}}
+		end = "autocommit-failing"
+	case 1:
+		inner = []gtxStep{{Op: "exec", DB: "X", SQL: u.SQL, Args: u.Args}}
+		end = "autocommit"
+	default:
+		inner = []gtxStep{{Op: "begin", DB: "X"}, {Op: "exec", DB: "X", SQL: u.SQL, Args: u.Args}, {Op: end}}
+	}
 	outcome := []string{"nil", "error"}[rnd.Intn(2)]
 	withStmt := rnd.Intn(3) == 0
 	vc0 := t.Def.Cols[t.valueCols()[0]].Name
@@ -179,6 +197,13 @@ func c16Mixed(r *vc.Run, env *c16Env, rnd *vc.Rand, name string) {
 			st = atGenInsert(rnd, t, o, 1, &seq)
 		}
 		after = append(after, gtxStep{Op: "exec", DB: "X", SQL: st.SQL, Args: st.Args})
+	}
+	if rnd.Bool() {
+		// ... inside an explicit local transaction
+		after = append(append([]gtxStep{{Op: "begin", DB: "X"}}, after...), gtxStep{Op: []string{"commit", "rollback"}[rnd.Intn(2)]})
+		p.Feat["after_part"] = "local-tx"
+	} else {
+		p.Feat["after_part"] = "autocommit"
 	}
 	if rnd.Bool() {
 		after = append(after, gtxStep{Op: "query", DB: "X", SQL: fmt.Sprintf("select * from %s where %s for update", t.Name, w), Args: wargs})
@@ -253,7 +278,7 @@ func c16Mixed(r *vc.Run, env *c16Env, rnd *vc.Rand, name string) {
 	want := runs["bare"]
 	for _, k := range []string{"at", "xa"} {
 		got := runs[k]
-		feat := map[string]string{"proxy": k, "mode": "mixed", "gtx_part": p.Feat["gtx_part"], "prepared_inside": p.Feat["prepared_inside"]}
+		feat := map[string]string{"proxy": k, "mode": "mixed", "gtx_part": p.Feat["gtx_part"], "prepared_inside": p.Feat["prepared_inside"], "after_part": p.Feat["after_part"]}
 		shape := featShape(feat)
 		r.Case(shape, map[string]interface{}{"program": p, "proxy": k, "after_gtx_proxy": clipList(got.journal, 20), "after_gtx_bare": clipList(want.journal, 20)})
 		viol := func(clause, detail string) {
@@ -386,7 +411,9 @@ func c16Run(env *c16Env, p *c16Prog, k string) *c16RunResult {
 		}
 	}
 	for _, ev := range env.w.TC.EventsSince(start) {
-		if ev.Dir != "in" || ev.Type == "ping" || ev.Type == "HeartbeatMessage" || strings.Contains(strings.ToLower(ev.Type), "heartbeat") {
+		// requests of the client only: answers to the coordinator's own (phase-two) requests of earlier programs may
+		// still be arriving
+		if ev.Dir != "in" || ev.FType == wire.FrameResponse || ev.Type == "ping" || ev.Type == "HeartbeatMessage" || strings.Contains(strings.ToLower(ev.Type), "heartbeat") {
 			continue
 		}
 		out.TC = append(out.TC, ev.Type)
